@@ -18,12 +18,12 @@ RULE = ('every shipped Transformation with a date reference epoch (all enumerate
         'parameters (2 um); equals conform7 at the reference epoch; set then negated set at the same epoch closes within the C06 '
         'bound; ATRF2014<->GDA2020 wrappers are mutual inverses within that bound and bit-exact identity at 2020-01-01; with a '
         'covariance and uncertainties the result equals J Q J^T with sigma(t)^2 = sigma^2 + (sigma_rate * dt)^2.  '
-        'distinct = set x epoch class x octant x radius decade')
+        '3 % of the judged calls are preceded by calls the property does not speak about (strings, None, numbers or malformed covariance where a parameter set, a date or a 3x3 matrix is required; a Transformation plus a number): not judged, exceptions swallowed.  distinct = set x epoch class x octant x radius decade')
 ASSUMPTIONS = ['helmert_exact (self-validated each shard)', 'Julian year = 365.25 days counted from datetime.date ordinals',
                'uncertainty of a propagated parameter: sqrt(sd^2 + (sd_rate * dt)^2), as documented in Transformation.__add__']
 N = {'quick': 1500, 'thorough': 25000}
 SHARDS = {'quick': 16, 'thorough': 32}
-REQUIRED_COUNTERS = ['wrapper_calls_with_covariance', 'same_label_sequences', 'shipped_sets_calls', 'random_sets_calls', 'reference_epoch_cases', 'before_reference_epoch', 'leap_day_cases',
+REQUIRED_COUNTERS = ['unjudged_calls_before_a_judged_one', 'wrapper_calls_with_covariance', 'same_label_sequences', 'shipped_sets_calls', 'random_sets_calls', 'reference_epoch_cases', 'before_reference_epoch', 'leap_day_cases',
                      'wrapper_roundtrips', 'wrapper_identity', 'negation_roundtrips', 'vcv_judged']
 D0 = datetime.date(1980, 1, 1).toordinal()
 D1 = datetime.date(2060, 12, 31).toordinal()
@@ -111,10 +111,29 @@ def snapshot_pristine(ns):
             PRISTINE[name] = dict(vars(t.tf_sd))
 
 
+UNJUDGED = [('conform7', ('x', 1.0, 2.0, '$t')), ('conform7', (-4e6, 2.5e6, -3.6e6, None)), ('conform7', (-4e6, 2.5e6, -3.6e6, '$t', 'vcv')),
+            ('conform7', (-4e6, 2.5e6, -3.6e6, '$t', [[1.0, 2.0]])), ('conform14', (-4e6, 2.5e6, -3.6e6, '2020-01-01', '$t')),
+            ('conform14', (-4e6, 2.5e6, -3.6e6, 2020.5, '$t')), ('conform14', (-4e6, 2.5e6, -3.6e6, None, '$t')),
+            ('conform14', (float('nan'), 'y', None, '$date', '$t')), ('add', ('$t', 5)), ('add', ('$t', 'tomorrow')), ('add', ('$t', None)),
+            ('conform14', (-4e6, 2.5e6, -3.6e6, '$date', '$t', [[1.0, 2.0]]))]
+
+
+def run_unjudged(ns, ctx, case, t):
+    """calls the property does not speak about (rejected argument types and shapes) made before the judged one"""
+    for k in case.get('before') or ():
+        name, args = UNJUDGED[k % len(UNJUDGED)]
+        args = [t if a == '$t' else (datetime.date(2021, 3, 4) if a == '$date' else a) for a in args]
+        if name == 'add':
+            core.unjudged(ctx, lambda a, b: a + b, *args)
+        else:
+            core.unjudged(ctx, getattr(ns.transform, name), *args)
+
+
 def judge(ns, ctx, case):
     C, T = ns.constants, ns.transform
     t = set_from_spec(ns, case['set'])
     shipped = isinstance(case['set'], str)
+    run_unjudged(ns, ctx, case, t)
     y, m, d = (int(v) for v in case['epoch'].split('-'))
     ep = datetime.date(y, m, d)
     x, yy, z = case['xyz']
@@ -251,6 +270,8 @@ def run_shard(spec, ctx):
             if k < 2:
                 ctx.sample(case)
             k += 1
+            if rnd.random() < 0.03:
+                case['before'] = [rnd.randrange(1000) for _ in range(rnd.choice([1, 2]))]
             judge(ns, ctx, case)
     for i in range(spec['n'] // 3):
         t = rand_dated_set(ns, rnd, rnd.random() < 0.5)
@@ -258,6 +279,8 @@ def run_shard(spec, ctx):
         V = c06.rand_vcv(rnd, rnd.choice(c06.VCV_KINDS))
         case = {'set': spec_of(t), 'epoch': str(ep), 'eclass': cls, 'xyz': c06.rand_point(rnd, 1e7),
                 'vcv': None if V is None else V.tolist()}
+        if rnd.random() < 0.03:
+            case['before'] = [rnd.randrange(1000) for _ in range(rnd.choice([1, 2]))]
         judge(ns, ctx, case)
         ctx.bucket('rate-pattern', ''.join('1' if getattr(t, 'd_' + p) else '0' for p in hx.P7))
         if i % 3 == 0:
@@ -268,6 +291,8 @@ def run_shard(spec, ctx):
             c2 = dict(case)
             c2['set'] = sp2
             judge(ns, ctx, c2)
+            if rnd.random() < 0.03:
+                case['before'] = [rnd.randrange(1000) for _ in range(rnd.choice([1, 2]))]
             judge(ns, ctx, case)
             ctx.count('same_label_sequences')
     # shipped constants sharing labels and reference epoch, at the same epochs, interleaved
